@@ -12,7 +12,8 @@ REPO = os.environ.get("VERIF_REPO", "/repo")
 _suffix = "" if REPO == "/repo" else "-" + hashlib.sha1(REPO.encode()).hexdigest()[:8]
 WORK = os.environ.get("VERIF_WORK", os.path.join(VERIF, ".work" + _suffix))
 SPEC = os.path.join(VERIF, "spec")
-EVID = os.path.join(VERIF, "evidence")
+# (evidence of a run against a scratch tree never replaces the evidence of /repo)
+EVID = os.path.join(VERIF, "evidence") if REPO == "/repo" else os.path.join(WORK, "evidence")
 NCPU = os.cpu_count() or 4
 
 
